@@ -132,6 +132,7 @@ func (l *loader) load(path string) (*pkgInfo, error) {
 		Defs:       map[*ast.Ident]types.Object{},
 		Uses:       map[*ast.Ident]types.Object{},
 		Selections: map[*ast.SelectorExpr]*types.Selection{},
+		Implicits:  map[ast.Node]types.Object{},
 	}
 	cfg := types.Config{Importer: l, Error: func(err error) { l.typeErrs++; l.warn = append(l.warn, err.Error()) }}
 	pkg, _ := cfg.Check(path, l.fset, p.files, p.info)
@@ -172,14 +173,14 @@ type fieldEntry struct {
 }
 
 type analysis struct {
-	l       *loader
-	tracked map[*types.Package]bool
-	vars    map[*types.Var]*varEntry
-	fields  map[*types.Var]*fieldEntry
-	vorder  []*types.Var
-	forder  []*types.Var
-	calls   []callEdge
-	copies  []copySite
+	l        *loader
+	tracked  map[*types.Package]bool
+	vars     map[*types.Var]*varEntry
+	fields   map[*types.Var]*fieldEntry
+	vorder   []*types.Var
+	forder   []*types.Var
+	calls    []callEdge
+	copies   []copySite
 	cfields  []cloneField
 	closures []nativeClosure
 }
@@ -188,10 +189,10 @@ type analysis struct {
 // its creator holding an *object, *runtime or *Otto: clone copies native function payloads as they
 // are, so in a copy the closure still works on the TEMPLATE's object/runtime
 type nativeClosure struct {
-	fn, file      string
-	line          int
-	name, vtyp    string
-	usage         string // strongest use inside the literal: read < escape < call < store
+	fn, file   string
+	line       int
+	name, vtyp string
+	usage      string // strongest use inside the literal: read < escape < call < store
 }
 
 // how a copying function ((*runtime).clone, (*Otto).Copy, (*Otto).clone) fills one field of the
@@ -405,14 +406,63 @@ func (a *analysis) cloneFields() {
 	for _, f := range p.files {
 		for _, d := range f.Decls {
 			fd, ok := d.(*ast.FuncDecl)
-			if !ok || fd.Body == nil || fd.Recv == nil || len(fd.Recv.List) == 0 || len(fd.Recv.List[0].Names) == 0 {
+			if !ok || fd.Body == nil {
 				continue
 			}
 			name := funcName(p.pkg, fd)
-			if name != "otto.(*runtime).clone" && name != "otto.(*Otto).Copy" && name != "otto.(*Otto).clone" {
+			// the copying functions: runtime.clone, Otto.Copy/clone, and every function that is handed the
+			// cloner (the clone methods of stashes and payloads, objectClone, the cloner's own methods)
+			handle := name == "otto.(*runtime).clone" || name == "otto.(*Otto).Copy" || name == "otto.(*Otto).clone"
+			takesCloner := false
+			roots := map[types.Object]bool{}
+			addFields := func(fl *ast.FieldList) {
+				if fl == nil {
+					return
+				}
+				for _, f := range fl.List {
+					isCloner := strings.Contains(types.ExprString(f.Type), "cloner")
+					if isCloner {
+						takesCloner = true
+					}
+					for _, nm := range f.Names {
+						if o := p.info.Defs[nm]; o != nil && !isCloner {
+							roots[o] = true
+						}
+					}
+				}
+			}
+			addFields(fd.Recv)
+			addFields(fd.Type.Params)
+			if !handle && !takesCloner {
 				continue
 			}
-			recvObj := p.info.Defs[fd.Recv.List[0].Names[0]]
+			// `switch v := root.x.(type)`: v stands for (part of) the source in every clause
+			ast.Inspect(fd.Body, func(n ast.Node) bool {
+				ts, ok := n.(*ast.TypeSwitchStmt)
+				if !ok {
+					return true
+				}
+				as, ok := ts.Assign.(*ast.AssignStmt)
+				if !ok || len(as.Rhs) != 1 {
+					return true
+				}
+				rooted := false
+				ast.Inspect(as.Rhs[0], func(m ast.Node) bool {
+					if id, ok := m.(*ast.Ident); ok && roots[p.info.Uses[id]] {
+						rooted = true
+					}
+					return true
+				})
+				if rooted {
+					for _, cc := range ts.Body.List {
+						if o := p.info.Implicits[cc]; o != nil {
+							roots[o] = true
+						}
+					}
+				}
+				return true
+			})
+			var recvObj types.Object
 			classify := func(e ast.Expr) string {
 				cloned, fromRecv := false, false
 				ast.Inspect(e, func(n ast.Node) bool {
@@ -427,7 +477,7 @@ func (a *analysis) cloneFields() {
 							}
 						}
 					case *ast.Ident:
-						if p.info.Uses[x] == recvObj && recvObj != nil {
+						if roots[p.info.Uses[x]] {
 							fromRecv = true
 						}
 					}
@@ -471,15 +521,23 @@ func (a *analysis) cloneFields() {
 						return true
 					}
 					nt, ok := tv.Type.(*types.Named)
-					if !ok || nt.Obj().Pkg() != p.pkg || (nt.Obj().Name() != "runtime" && nt.Obj().Name() != "Otto") {
+					if !ok || nt.Obj().Pkg() != p.pkg {
 						return true
 					}
-					built = append(built, nt)
-					for _, el := range x.Elts {
+					str, ok := nt.Underlying().(*types.Struct)
+					if !ok {
+						return true
+					}
+					if nt.Obj().Name() == "runtime" || nt.Obj().Name() == "Otto" {
+						built = append(built, nt)
+					}
+					for i, el := range x.Elts {
 						if kv, ok := el.(*ast.KeyValueExpr); ok {
 							if k, ok := kv.Key.(*ast.Ident); ok {
 								record(nt, k.Name, kv.Value, kv)
 							}
+						} else if i < str.NumFields() {
+							record(nt, str.Field(i).Name(), el, el) // positional literal
 						}
 					}
 				case *ast.AssignStmt:
@@ -500,8 +558,8 @@ func (a *analysis) cloneFields() {
 						if !ok || nt.Obj().Pkg() != p.pkg || (nt.Obj().Name() != "runtime" && nt.Obj().Name() != "Otto") {
 							continue
 						}
-						// stores into the receiver itself are not part of building the copy
-						if id, ok := sel.X.(*ast.Ident); ok && p.info.Uses[id] == recvObj {
+						// stores into the source itself are not part of building the copy
+						if id, ok := sel.X.(*ast.Ident); ok && (roots[p.info.Uses[id]] || p.info.Uses[id] == recvObj) {
 							continue
 						}
 						rhs := x.Rhs[0]
